@@ -32,9 +32,12 @@ QUICK_EXAMPLES = {"knapsack": 2500, "misp": 900, "max2sat": 1300, "mcp": 1600, "
                   "srflp": 1500, "talentsched": 2000, "psp": 2400, "alp": 2000}
 # in-process part (second Hypothesis search per example, other seed, runs through the example compiled as a server: ~0.1 ms per
 # run instead of ~10 ms): quick-tier max_examples (thorough = 10x), and the widths every one of its instances is solved with
-INPROC_EXAMPLES = {"knapsack": 8000, "misp": 5000, "max2sat": 2500, "mcp": 2500, "lcs": 6000, "sop": 5000, "tsptw": 4500,
+INPROC_EXAMPLES = {"knapsack": 8000, "misp": 2500, "max2sat": 1500, "mcp": 1500, "lcs": 4000, "sop": 5000, "tsptw": 4500,
                    "srflp": 2500, "talentsched": 5000, "psp": 3000, "alp": 5000}
 INPROC_WIDTHS = (1, 2, 3, 4, 5, 6, 7, 8, None)
+# examples whose oracle stays cheap on somewhat larger instances: the in-process search draws from a wider size range there
+# (knapsack <= 13 items, misp / mcp <= 11 vertices, max2sat <= 9 variables and 22 clauses, lcs strings of <= 10 letters)
+INPROC_BIG = ("knapsack", "misp", "max2sat", "mcp", "lcs")
 GOLOMB_SIZES = {"quick": range(2, 8), "thorough": range(2, 9)}
 SHRINK_BUDGET_S = {"quick": 40.0, "thorough": 240.0}
 RUN_TIMEOUT_S = {"quick": 60.0, "thorough": 120.0}
@@ -94,9 +97,9 @@ def rows(matrix, sep=" "):
 # the 12 examples: strategy (structured instance) / render (file text) / oracle (optimum, None = infeasible) / nvars
 # ----------------------------------------------------------------------------------------------------------------------
 @st.composite
-def s_knapsack(draw):
-    items = draw(st.lists(st.tuples(ints(0, 15), ints(1, 10)), min_size=1, max_size=8))
-    return {"capacity": draw(ints(0, 20)), "items": [list(i) for i in items], "comment": draw(st.booleans())}
+def s_knapsack(draw, big=False):
+    items = draw(st.lists(st.tuples(ints(0, 15), ints(1, 10)), min_size=1, max_size=13 if big else 8))
+    return {"capacity": draw(ints(0, 35 if big else 20)), "items": [list(i) for i in items], "comment": draw(st.booleans())}
 
 
 def r_knapsack(i):
@@ -105,16 +108,27 @@ def r_knapsack(i):
 
 def o_knapsack(i):
     it, best = i["items"], 0
+    if len(it) > 8:  # larger instances of the in-process part: textbook capacity DP (weights >= 1), itself compared with the
+        dp = [0] * (i["capacity"] + 1)  # enumeration below on every instance of <= 8 items
+        for p_, w in it:
+            for c in range(i["capacity"], w - 1, -1):
+                dp[c] = max(dp[c], dp[c - w] + p_)
+        return dp[i["capacity"]]
     for m in range(1 << len(it)):
         sel = [x for k, x in enumerate(it) if m >> k & 1]
         if sum(w for _, w in sel) <= i["capacity"]:
             best = max(best, sum(p for p, _ in sel))
+    dp = [0] * (i["capacity"] + 1)
+    for p_, w in it:
+        for c in range(i["capacity"], w - 1, -1):
+            dp[c] = max(dp[c], dp[c - w] + p_)
+    assert dp[i["capacity"]] == best, "oracle self-check: knapsack DP and enumeration disagree"
     return best
 
 
 @st.composite
-def s_misp(draw):
-    n = draw(ints(1, 8))
+def s_misp(draw, big=False):
+    n = draw(ints(1, 11 if big else 8))
     edges = draw(st.lists(st.sampled_from(all_pairs(n)), unique=True)) if n > 1 else []
     return {"n": n, "weights": draw(fixed_list(st.one_of(st.just(1), ints(0, 9)), n)), "edges": [list(e) for e in edges],
             "all_node_lines": draw(st.booleans())}
@@ -134,14 +148,14 @@ def o_misp(i):
 
 
 @st.composite
-def s_max2sat(draw):
-    n = draw(ints(1, 6))
+def s_max2sat(draw, big=False):
+    n = draw(ints(1, 9 if big else 6))
     lit = st.sampled_from([l for v in range(1, n + 1) for l in (v, -v)])
     # a clause is an unordered pair of literals: x == y is a unit clause, x == -y a tautology; all clauses distinct
     # weights may be negative (shipped file negative_wt.wcnf and its test); a unit clause is written "w x 0" or "w x x 0"
     # (shipped file debug.wcnf)
     wt = ints(-9, 9) if draw(st.booleans()) else ints(0, 9)
-    clauses = draw(st.lists(st.tuples(wt, lit, lit), max_size=12, unique_by=lambda c: (min(c[1:]), max(c[1:]))))
+    clauses = draw(st.lists(st.tuples(wt, lit, lit), max_size=22 if big else 12, unique_by=lambda c: (min(c[1:]), max(c[1:]))))
     return {"n": n, "clauses": [list(c) for c in clauses], "unit_twice": draw(st.booleans())}
 
 
@@ -160,8 +174,8 @@ def o_max2sat(i):
 
 
 @st.composite
-def s_mcp(draw):
-    n = draw(ints(1, 8))
+def s_mcp(draw, big=False):
+    n = draw(ints(1, 11 if big else 8))
     edges = draw(st.lists(st.tuples(st.sampled_from(all_pairs(n)), ints(-9, 9)), unique_by=lambda e: e[0])) if n > 1 else []
     return {"n": n, "edges": [[a, b, w] for (a, b), w in edges], "comment": draw(st.booleans())}
 
@@ -175,9 +189,9 @@ def o_mcp(i):
 
 
 @st.composite
-def s_lcs(draw):
+def s_lcs(draw, big=False):
     alpha = "ACGT"[:draw(ints(1, 4))]
-    return {"strings": draw(st.lists(st.text(alphabet=alpha, min_size=1, max_size=7), min_size=2, max_size=4))}
+    return {"strings": draw(st.lists(st.text(alphabet=alpha, min_size=1, max_size=10 if big else 7), min_size=2, max_size=4))}
 
 
 def r_lcs(i):
@@ -669,7 +683,7 @@ def examine_instance(ctx, inst):
             ctx.instances += 1
             ctx.labels[("inproc_instances:" if ctx.server is not None else "instances:") + ex] += 1
             ctx.labels["infeasible_instances:" + ex] += expected is None
-            ctx.labels["nvars:%s" % min(nvars, 8)] += 1
+            ctx.labels["nvars:%s" % min(nvars, 13)] += 1
         # two more widths per instance, between the tiny ones and the default: a relaxation that is only slightly unsound shows
         # when the diagrams are *almost* exact (F13 only showed at widths 6, 7 and default on its instance). They are a pure
         # function of the instance text, so that replay and shrinking see the same runs.
@@ -736,7 +750,7 @@ def worker(job):
         @seed(seed_)
         @settings(max_examples=n, database=None, deadline=None, derandomize=False, suppress_health_check=list(HealthCheck),
                   phases=[Phase.generate, Phase.shrink], print_blob=False, verbosity=Verbosity.quiet, report_multiple_bugs=False)
-        @given(SPECS[ex].strategy())
+        @given(SPECS[ex].strategy(big=True) if ctx.server is not None and ex in INPROC_BIG else SPECS[ex].strategy())
         def test(inst):
             check_instance(ctx, inst)
         try:
